@@ -268,6 +268,11 @@ class BrokerMonitor(Monitor):
             self.pending[(kw["ch"], kw["tag"])] = (kw["queue"], kw["uid"], node)
             arn = self.exec_of_uid.get(kw["uid"]) or self.arn_of_cid.get(kw.get("cid"))
             self.sim.ctx_tag = arn
+        elif name == "ack_frame" and node is not None and kw.get("covered", 0) > 1:
+            self.add("C03", "ack-covers-other-deliveries",
+                     "%s sent Basic.Ack(delivery_tag=%s, multiple=True) while %d deliveries were outstanding on its channel: "
+                     "events and replies of other executions are settled before their consequences are issued" % (
+                         node, kw.get("tag"), kw["covered"]))
         elif name == "basic_ack" and node is not None:
             ent = self.pending.pop((kw["ch"], kw["tag"]), None)
             uid = kw["uid"]
